@@ -318,8 +318,29 @@ func c09Scenarios(devTypes []string) []*dscenario {
 		for _, f := range []string{"drc", "do-approve", "drc-C", "do-compare", "drc-q", "do-approve-brief", "do-compare-brief", "drc-logfile"} {
 			l = append(l, baseScenario(t, f))
 		}
+		if t == "PAN-OS" {
+			// several vsys with changes: a failure in the first must stop the rest
+			l = append(l, panTwoVsysScenario("drc"), panTwoVsysScenario("do-approve"))
+		}
 	}
 	return l
+}
+
+// panTwoVsysScenario: a PAN-OS device with two vsys that both need changes.
+func panTwoVsysScenario(front string) *dscenario {
+	sc := baseScenario("PAN-OS", front)
+	rs := func(s ...int) []panRuleT {
+		var l []panRuleT
+		for _, i := range s {
+			l = append(l, panRules[i])
+		}
+		return l
+	}
+	dn := "<display-name>" + netspocBanner + "</display-name>"
+	sc.device = panConfig(panVsysT{name: "vsys1", rules: rs(0, 3), extra: dn}, panVsysT{name: "vsys2", rules: rs(2), extra: dn})
+	sc.target.Main = panConfig(panVsysT{name: "vsys1", rules: rs(1, 0, 4)}, panVsysT{name: "vsys2", rules: rs(0, 2)})
+	sc.name = "PAN-OS/" + front + "/two-vsys"
+	return sc
 }
 
 func c09Worker(ctx *core.Ctx) *core.Result {
